@@ -67,6 +67,10 @@ func EthToOLSignedTx(tx *ethtypes.Transaction) (*action.SignedTx, error) {
 		Nonce:   tx.Nonce(),
 		ChainID: tx.ChainId(),
 	}
+	if msg.Data == nil {
+		// the only accepted spelling of an empty data field is ""
+		msg.Data = []byte{}
+	}
 	data, err := msg.Marshal()
 	if err != nil {
 		return nil, err
